@@ -90,10 +90,50 @@ pub fn schedx(args: &[&str]) -> String {
 pub fn schedt(args: &[&str]) -> String {
     sched_cmd("SCHEDT", args)
 }
+/// STRESS <threads> <calls>: a fresh process, <threads> OS threads released together by a barrier, each making <calls> calls of
+/// CreationTimestamp::now() on the REAL clock with no scheduler hook (the free-running stress of the property text, including the
+/// very first calls of a process racing each other)  ->  OK <threads*calls> UNIQUE | DUP <time>:<seq>
+pub fn stress(args: &[&str]) -> String {
+    match args {
+        [t, c] if t.parse::<usize>().map(|x| (1..=256).contains(&x)).unwrap_or(false) && c.parse::<usize>().map(|x| (1..=100000).contains(&x)).unwrap_or(false) => {}
+        _ => return "BADCASE".into(),
+    }
+    sched_cmd_unchecked("STRESS", args)
+}
+fn stress_child(threads: usize, calls: usize) -> String {
+    let barrier = std::sync::Arc::new(std::sync::Barrier::new(threads));
+    let hs: Vec<_> = (0..threads)
+        .map(|_| {
+            let b = barrier.clone();
+            std::thread::spawn(move || {
+                b.wait();
+                (0..calls).map(|_| bp7::CreationTimestamp::now()).map(|ts| (ts.dtntime(), ts.seqno())).collect::<Vec<_>>()
+            })
+        })
+        .collect();
+    let mut all: Vec<(u64, u64)> = Vec::new();
+    for h in hs {
+        match h.join() {
+            Ok(v) => all.extend(v),
+            Err(_) => return "PANIC".into(),
+        }
+    }
+    let n = all.len();
+    all.sort();
+    for w in all.windows(2) {
+        if w[0] == w[1] {
+            return format!("DUP {}:{}", w[0].0, w[0].1);
+        }
+    }
+    format!("OK {} UNIQUE", n)
+}
 fn sched_cmd(cmd: &str, args: &[&str]) -> String {
     if parse(args).is_none() {
         return "BADCASE".into();
     }
+    sched_cmd_unchecked(cmd, args)
+}
+fn sched_cmd_unchecked(cmd: &str, args: &[&str]) -> String {
     let exe = match std::env::current_exe() {
         Ok(e) => e,
         Err(_) => return "ABORT".into(),
@@ -135,6 +175,11 @@ pub fn sched_child_main() {
     let mut line = String::new();
     let _ = std::io::stdin().lock().read_line(&mut line);
     let toks: Vec<&str> = line.split_whitespace().collect();
+    if toks.first() == Some(&"STRESS") && toks.len() == 3 {
+        println!("{}", stress_child(toks[1].parse().unwrap_or(1), toks[2].parse().unwrap_or(1)));
+        let _ = std::io::stdout().flush();
+        std::process::exit(0);
+    }
     let args: &[&str] = match toks.first() {
         Some(&"SCHED") => &toks[1..],
         Some(&"SCHEDX") => {
